@@ -58,6 +58,17 @@ fn record_fragments(tid: u64, seq: u64) -> [String; 5] {
     [format!("<{tid}:{seq}:"), a, b, c, format!(":{:08x}>", (mix(tid * 1_000_003 + seq) & 0xffff_ffff))]
 }
 
+/// Keep in sync with vlib/c19.py::expected_record (long form).
+fn long_record(tid: u64, seq: u64) -> String {
+    let unit = format!("t{tid:x}s{seq:x}.");
+    let mut tail = String::new();
+    while tail.len() < 1500 {
+        tail.push_str(&unit);
+    }
+    tail.truncate(1500);
+    format!("<{tid}:{seq}:L\n{tail}:{:08x}>", mix(tid * 1_000_003 + seq) & 0xffff_ffff)
+}
+
 fn print_mode(threads: u64, per: u64, seed: u64) {
     let barrier = Arc::new(Barrier::new(threads as usize));
     let hs: Vec<_> = (0..threads)
@@ -77,7 +88,10 @@ fn print_mode(threads: u64, per: u64, seed: u64) {
                             let _ = write!(anstream::stdout(), "{s0}{s1}{s2}{s3}{s4}\n");
                         }
                         4 => {
-                            let whole = format!("{f0}{f1}{f2}{f3}{f4}\n");
+                            // every fourth of these is a long record: a header line followed by a 1500-byte tail without a
+                            // final newline, in ONE write_all call (std's line-buffered stdout answers such a buffer with
+                            // a short write, so a stream that re-takes the lock per `write` lets another thread in)
+                            let whole = if seq % 4 == 0 { long_record(tid, seq) } else { format!("{f0}{f1}{f2}{f3}{f4}\n") };
                             let _ = anstream::stdout().write_all(whole.as_bytes());
                         }
                         5 => {
